@@ -1,4 +1,4 @@
-From Ufw Require Import Base.Bits Base.Cexpr Gen.CrcGen Model.Crc Proof.CexprLemmas.
+From Ufw Require Import Base.Bits Base.Cexpr Gen.CrcGen Model.Crc Proof.CexprLemmas Proof.Sweep.
 From Coq Require Import Lia String.
 Local Open Scope N_scope.
 
@@ -69,21 +69,6 @@ Qed.
 
 Lemma step8_lxor a b : step8 (N.lxor a b) = N.lxor (step8 a) (step8 b).
 Proof. unfold step8. rewrite !bitstep_lxor. reflexivity. Qed.
-
-(* finite sweeps over one octet *)
-Fixpoint all_below (n : nat) (p : N -> bool) : bool :=
-  match n with O => true | S n => p (N.of_nat n) && all_below n p end.
-
-Lemma all_below_spec n p : all_below n p = true -> forall x, x < N.of_nat n -> p x = true.
-Proof.
-  induction n as [|n IH]; intros H x Hx; [lia|].
-  cbn [all_below] in H. apply andb_prop in H as [H1 H2].
-  destruct (N.eq_dec x (N.of_nat n)) as [->|Hne]; [exact H1|].
-  apply IH; [exact H2|lia].
-Qed.
-
-Lemma sweep256 (p : N -> bool) : all_below 256 p = true -> forall x, x < 256 -> p x = true.
-Proof. intros H x Hx. apply (all_below_spec 256 p H). exact Hx. Qed.
 
 Lemma step8_high h : h < 256 -> step8 (N.shiftl h 8) = h.
 Proof.
